@@ -102,7 +102,16 @@ class InstGen:
         if s is False:
             raise GenFail("false schema")
         if "$ref" in s:
-            return self.inst(self.resolve(s["$ref"]), d + 1, minimal)
+            v = self.inst(self.resolve(s["$ref"]), d + 1, minimal)
+            if isinstance(v, dict) and isinstance(s.get("properties"), dict):
+                # sibling keywords of a $ref (merged by typify, ignored by draft-07): members declared there
+                for k, ps in s["properties"].items():
+                    if k not in v and (not minimal and self.chance(0.7)):
+                        try:
+                            v[k] = self.inst(ps, d + 1, minimal)
+                        except GenFail:
+                            pass
+            return v
         if "const" in s:
             return copy.deepcopy(s["const"])
         if "enum" in s:
